@@ -1,7 +1,9 @@
 (* drv_rtcheck.ml — static-typed: does the annotated output of the typechecker model satisfy the
    run-time typing judgement (premise tc_annotations_typed of C01 / C02)?
    topo-<async|sync>-<seed>: does every configuration of one model run satisfy the test of Topo
-   (premise topo_reachable)? *)
+   (premise topo_reachable)?
+   syn-premises: the computable premises prog_syn_ok / rt_syn_ok of the theorems that no longer assume
+   tc_annotations_typed (sound: syn_premises_sound). *)
 open Registry
 open Model_rtcheck
 
@@ -16,6 +18,14 @@ let () =
       | SV_outside_fragment -> "OUTSIDE-FRAGMENT"
       | SV_rejected -> "REJECT"
       | SV_parse_error -> "PARSE-ERR");
+  register "syn-premises" (fun txt ->
+      match syn_premises_text (explode txt) with
+      | SY_ok -> "SYN-OK"
+      | SY_types_not_syn -> "TYPES-NOT-SYN"
+      | SY_names_not_syn -> "NAMES-NOT-SYN"
+      | SY_outside_fragment -> "OUTSIDE-FRAGMENT"
+      | SY_rejected -> "REJECT"
+      | SY_parse_error -> "PARSE-ERR");
   List.iter (fun (nm, md) ->
       List.iter (fun seed ->
           register (Printf.sprintf "topo-%s-%d" nm seed) (fun txt ->
